@@ -4,7 +4,7 @@
    Termination is not claimed: a loop that keeps feeding itself diverges; in the model the
    `while` takes fuel and running out is reported in w_oof. *)
 From Coq Require Import List NArith Bool.
-From HV Require Import Dfir.Model Dfir.ModelTick Dfir.PTick.
+From HV Require Import Dfir.Model Dfir.ModelTick Dfir.ModelGraph Dfir.PTick Dfir.PGraph.
 Import ListNotations.
 
 (* gate semantics: no check = unconditional body; root loop = `if`; nested loop = `while` over
@@ -48,6 +48,55 @@ Theorem C26_loop_defer :
     get h (w_buf (gate_body ext body swaps w)) = get h (w_back w1).
 Proof. exact loop_defer_swap. Qed.
 Print Assumptions C26_loop_defer.
+
+(* which handoffs gate a loop, which are swapped per iteration and which per tick: the functions of
+   Dfir/ModelGraph.v that build the tick program from the graph record (read from the real
+   meta_graph()) satisfy the rules of emit_loop_gate / as_code_with_options /
+   mark_tick_boundary_handoffs:
+   - a defer_tick (defer_tick_lazy) consumed inside a nested loop is Loop (LoopLazy) delayed,
+     elsewhere Tick (TickLazy) delayed;
+   - a loop re-runs on its non-lazy entry handoffs (back buffer if delayed) and on the non-lazy
+     back buffers delayed at its level (Loop for a nested, Tick for a root-level loop) -- lazy
+     windows and lazily delayed handoffs never gate;
+   - the loop's swap list holds the loop-delayed handoffs consumed in it (and the tick-delayed ones
+     for a root-level loop), the tick-level swap list the tick-delayed ones not consumed in a
+     root-level loop; a deferred handoff consumed in a nested loop is swapped per iteration and
+     never per tick;
+   - a loop block is the declaration of its exit handoffs followed by the gate. *)
+Theorem C26_selection_rules :
+  (forall g h,
+     (gh_base h = BNone -> eff_delay g h = DNo) /\
+     (gh_base h = BTick -> eff_delay g h = if in_nested g (gh_succ_loop h) then DLoop else DTick) /\
+     (gh_base h = BTickLazy -> eff_delay g h = if in_nested g (gh_succ_loop h) then DLoopLazy else DTickLazy)) /\
+  (forall g l c,
+     In c (gate_checks g l) <->
+     (exists h, In h (g_hoffs g) /\ gh_succ_loop h = Some l /\ gh_pred_loop h = loop_parent g l /\
+        gh_lazy_win h = false /\ c = (if delayed g h then CBack (gh_wire h) else CBuf (gh_wire h))) \/
+     (exists h, In h (g_hoffs g) /\ gh_succ_sg_loop h = Some l /\
+        eff_delay g h = (if is_root g l then DTick else DLoop) /\ c = CBack (gh_wire h))) /\
+  (forall g l w,
+     In w (loop_swaps g l) <->
+     exists h, In h (g_hoffs g) /\ gh_wire h = w /\ gh_succ_sg_loop h = Some l /\
+               (loop_d (eff_delay g h) = true \/ (tick_d (eff_delay g h) = true /\ is_root g l = true))) /\
+  (forall g w,
+     In w (tick_swaps g) <->
+     exists h, In h (g_hoffs g) /\ gh_wire h = w /\ tick_d (eff_delay g h) = true /\
+               in_root g (gh_succ_sg_loop h) = false) /\
+  (forall g h l, In h (g_hoffs g) -> gh_base h <> BNone ->
+     gh_succ_loop h = Some l -> gh_succ_sg_loop h = Some l -> is_root g l = false ->
+     In (gh_wire h) (loop_swaps g l)) /\
+  (forall g h l, (forall h', In h' (g_hoffs g) -> gh_wire h' = gh_wire h -> h' = h) ->
+     gh_succ_loop h = Some l -> is_root g l = false -> ~ In (gh_wire h) (tick_swaps g)) /\
+  (forall g l body,
+     lower_sk g (SKLoop l body) =
+     [IDecl (exit_hoffs g l);
+      IGate (is_root g l) (gate_checks g l) (flat_map (lower_sk g) body) (loop_swaps g l)]).
+Proof.
+  split; [exact remap_rule|]. split; [exact gate_checks_rule|]. split; [exact loop_swaps_rule|].
+  split; [exact tick_swaps_rule|]. split; [exact nested_defer_in_loop_swaps|].
+  split; [exact nested_defer_not_tick_swapped | exact lower_loop].
+Qed.
+Print Assumptions C26_selection_rules.
 
 (* non-vacuity: a `while` gate over handoff 0 whose body moves one item per iteration from
    buffer 0 to the sink runs exactly three times on three items *)
